@@ -175,13 +175,18 @@ pub fn run_op(op: &str, a: &[String]) -> Result<(), String> {
             };
             match (got, exp) {
                 (Ok(v), Some(e)) => {
-                    if v == e {
+                    // the property fixes WHICH cells come back (distinct, right number, right resolution, right ancestor),
+                    // not the order in which one cell's children are listed: compare as sorted lists
+                    let (mut vs, mut es) = (v.clone(), e.clone());
+                    vs.sort_unstable();
+                    es.sort_unstable();
+                    if vs == es {
                         Ok(())
                     } else {
-                        let k = v.iter().zip(e.iter()).position(|(p, q)| p != q);
+                        let k = vs.iter().zip(es.iter()).position(|(p, q)| p != q);
                         Err(format!(
-                            "cell_to_children({}, {:?}): {} children, expected {}; first difference at {:?}: got {:?} expected {:?}",
-                            hx(x), cr, v.len(), e.len(), k, k.map(|k| hx(v[k])), k.map(|k| hx(e[k]))
+                            "cell_to_children({}, {:?}): {} children, expected {}; as sorted lists they first differ at {:?}: got {:?} expected {:?}",
+                            hx(x), cr, v.len(), e.len(), k, k.map(|k| hx(vs[k])), k.map(|k| hx(es[k]))
                         ))
                     }
                 }
@@ -193,7 +198,10 @@ pub fn run_op(op: &str, a: &[String]) -> Result<(), String> {
         "get_res0_cells" => {
             let got = guard(a5::get_res0_cells)?.map_err(|e| format!("get_res0_cells() = Err({})", e))?;
             let exp: Vec<u64> = kids(WORLD, 0).into_iter().map(enc).collect();
-            if got != exp { Err(format!("get_res0_cells() = {}", flist(&got))) } else { Ok(()) }
+let (mut g, mut e) = (got.clone(), exp.clone());
+            g.sort_unstable();
+            e.sort_unstable();
+            if g != e { Err(format!("get_res0_cells() = {}", flist(&got))) } else { Ok(()) }
         }
         "is_first_child" => {
             // for a canonical cell x of resolution r >= 0: is_first_child(x, Some(r) | None) <=> x is kids(parent)[0]
@@ -286,15 +294,25 @@ pub fn run_op(op: &str, a: &[String]) -> Result<(), String> {
                 Ok(v) if finer => Err(format!("uncompact({}, {}) = Ok({} cells) although an input is finer than the target", flist(&l), t, v.len())),
                 Err(e) => Err(format!("uncompact({}, {}) = Err({})", flist(&l), t, e)),
                 Ok(v) => {
+                    // per input cell, in input order, its descendants - the order INSIDE one input's block is not part of
+                    // the property: each block is compared as a sorted list
                     let mut exp = Vec::new();
+                    let mut vn = v.clone();
+                    let mut pos = 0usize;
                     for x in &l {
-                        exp.extend(kids(dec(*x).unwrap(), t).into_iter().map(enc));
+                        let mut blk: Vec<u64> = kids(dec(*x).unwrap(), t).into_iter().map(enc).collect();
+                        blk.sort_unstable();
+                        if pos + blk.len() <= vn.len() {
+                            vn[pos..pos + blk.len()].sort_unstable();
+                        }
+                        pos += blk.len();
+                        exp.extend(blk);
                     }
-                    if v == exp {
+                    if vn == exp {
                         Ok(())
                     } else {
-                        let k = v.iter().zip(exp.iter()).position(|(p, q)| p != q);
-                        Err(format!("uncompact({}, {}): {} cells, expected {}; first difference at {:?}", flist(&l), t, v.len(), exp.len(), k))
+                        let k = vn.iter().zip(exp.iter()).position(|(p, q)| p != q);
+                        Err(format!("uncompact({}, {}): {} cells, expected {}; with each input's block sorted they first differ at {:?}", flist(&l), t, v.len(), exp.len(), k))
                     }
                 }
             }
